@@ -196,6 +196,19 @@ def check_surface(case, ctx):
                   'transpose: degrees %r sizes %r' % (G.degrees_of(t), G.sizes_of(t)), what='transpose')
         if not judge(ctx, rng, t, St, 'route/transpose', 'transpose(inplace=%s) is not S\'(u,v) = S(v,u)' % inplace, what='transpose'):
             return
+    # a container of two distinct surfaces with equal data (a patch and its copy): both are transposed
+    from geomdl import multi as _multi
+    twins = _multi.SurfaceContainer(copy.deepcopy(s1), copy.deepcopy(s1))
+    tt_ = operations.transpose(twins, inplace=rng.random() < 0.5)
+    ctx.tag('transpose:container-of-equal-twins')
+    St = reference((q, p), (V, U), (nv, nu), P, W, rational, perm=lambda t_: (t_[1], t_[0]))
+    for k_, e_ in enumerate(tt_):
+        if not ctx.check(G.degrees_of(e_) == [q, p] and G.sizes_of(e_) == [nv, nu], 'route/transpose-container-element-skipped',
+                         'transpose(container of two equal surfaces): element %d has degrees %r sizes %r, expected %r %r'
+                         % (k_, G.degrees_of(e_), G.sizes_of(e_), [q, p], [nv, nu]), what='transpose'):
+            return
+        if not judge(ctx, rng, e_, St, 'route/transpose', 'transpose(container): element %d is not S\'(u,v) = S(v,u)' % k_, what='transpose'):
+            return
     # the bound method is the same operation, in place
     tm = copy.deepcopy(s1)
     r_ = tm.transpose()
